@@ -1,50 +1,21 @@
-import re
-p='/verif/check'
+p='/verif/harness/src/c05n.rs'
 s=open(p).read()
-# 1. main loop over (label, gen, prefix, profile)
-old_head='''    per_profile_cases = {}
-    for profile in profiles:
-        casedir = os.path.join(COQ, "cases", pid, profile)
-        shutil.rmtree(casedir, ignore_errors=True)
-        os.makedirs(casedir)
-        exe = MLV if profile == "release" else MLV_DEBUG
-'''
-new_head='''    per_profile_cases = {}
-    # a property can name further generators ("also": [(gen, prefix, scale_quick, scale_thorough)]): their cases are
-    # evaluated the same way; a run is labelled "<profile>" for the main generator and "<profile>:<gen>" otherwise
-    runs = [(prof, cfg["gen"], cfg["prefix"], scale) for prof in profiles]
-    for (g, pre, sq, st) in cfg.get("also", []):
-        runs.append(("release:" + g, g, pre, sq if tier == "quick" else st))
-    for (profile, gen_name, gen_prefix, gen_scale) in runs:
-        casedir = os.path.join(COQ, "cases", pid, profile.replace(":", "_"))
-        shutil.rmtree(casedir, ignore_errors=True)
-        os.makedirs(casedir)
-        exe = MLV_DEBUG if profile == "debug" else MLV
-'''
-assert old_head in s
-s=s.replace(old_head,new_head)
-s=s.replace('''        cmd = ["timeout", "600" if tier == "quick" else "1800", exe, cfg["gen"], "--seed", str(seed), "--scale", str(scale), "--shards", str(NPROC), "--out", casedir, "--profile", profile]''','''        cmd = ["timeout", "600" if tier == "quick" else "1800", exe, gen_name, "--seed", str(seed), "--scale", str(gen_scale), "--shards", str(NPROC), "--out", casedir, "--profile", profile.split(":")[0]]''')
-s=s.replace('''            distribution[profile + ":" + k if len(profiles) > 1 else k] = v''','''            distribution[profile + ":" + k if len(runs) > 1 else k] = v''')
-s=s.replace('''        fails, errors = eval_shards(casedir, cfg["prefix"])
-        corr_errors += errors
-        cases = load_cases(casedir, cfg["prefix"])''','''        fails, errors = eval_shards(casedir, gen_prefix)
-        corr_errors += errors
-        cases = load_cases(casedir, gen_prefix)''')
-# 2. replay
-s=s.replace('''    exe = MLV if profile == "release" else MLV_DEBUG
-    cmd = [exe, cfg["gen"], "--seed", str(rp["seed"]), "--scale", str(rp["scale"]), "--shards", "1", "--out", casedir, "--profile", profile]
-    r = run(cmd, timeout=3000)
-    cases = load_cases(casedir, cfg["prefix"])''','''    exe = MLV_DEBUG if profile == "debug" else MLV
-    rgen, rprefix, rscale = cfg["gen"], cfg["prefix"], rp["scale"]
-    if ":" in profile:
-        for (g, pre, sq, st) in cfg.get("also", []):
-            if g == profile.split(":")[1]:
-                rgen, rprefix, rscale = g, pre, (sq if rp.get("tier") == "quick" else st)
-    cmd = [exe, rgen, "--seed", str(rp["seed"]), "--scale", str(rscale), "--shards", "1", "--out", casedir, "--profile", profile.split(":")[0]]
-    r = run(cmd, timeout=3000)
-    cfg = dict(cfg, prefix=rprefix)
-    cases = load_cases(casedir, cfg["prefix"])''')
-# 3. C20 also runs the store histories of C03
-s=s.replace('''    "C20": dict(gen="c20", prefix="c20", scale=(1, 3), props="properties/C20.v",''','''    "C20": dict(gen="c20", prefix="c20", scale=(1, 3), props="properties/C20.v", also=[("c03", "c03", 1, 3)],''')
+s=s.replace('''        let (tx, _rx) = flume::unbounded();
+        s.node.actor.verif_get(crate::c20::request_of(kind, target), ResponseSender::ClosestNodes(tx));
+        let share = 8 + r.below(12) as usize;''','''        let (tx, _rx) = flume::unbounded();
+        // the API call itself must not panic either
+        if catch_unwind(AssertUnwindSafe(|| s.node.actor.verif_get(crate::c20::request_of(kind, target), ResponseSender::ClosestNodes(tx)))).is_err() {
+            return (delivered, true, false);
+        }
+        let share = 8 + r.below(12) as usize;''')
+s=s.replace('''    let (tx, rx) = flume::unbounded();
+    s.node.actor.verif_get(crate::c20::request_of(0, dht::Id::random()), ResponseSender::ClosestNodes(tx));
+    let mut alive = false;
+    for _ in 0..60 {''','''    let (tx, rx) = flume::unbounded();
+    if catch_unwind(AssertUnwindSafe(|| s.node.actor.verif_get(crate::c20::request_of(0, dht::Id::random()), ResponseSender::ClosestNodes(tx)))).is_err() {
+        return (delivered, true, false);
+    }
+    let mut alive = false;
+    for _ in 0..60 {''')
 open(p,'w').write(s)
 print('ok')
